@@ -43,9 +43,22 @@ func (k *vKV) Put(_ context.Context, key, val string, _ ...clientv3.OpOption) (*
 	return &clientv3.PutResponse{}, nil
 }
 
-func (k *vKV) Delete(_ context.Context, key string, _ ...clientv3.OpOption) (*clientv3.DeleteResponse, error) {
-	delete(k.data, key)
-	return &clientv3.DeleteResponse{}, nil
+// Delete interprets the request the way the server does: the options are applied
+// by the library's own OpDelete, and a ranged delete (WithPrefix, WithRange)
+// removes every key in [key, end).
+func (k *vKV) Delete(_ context.Context, key string, opts ...clientv3.OpOption) (*clientv3.DeleteResponse, error) {
+	op := clientv3.OpDelete(key, opts...)
+	end := string(op.RangeBytes())
+	doomed := []string{}
+	for kk := range k.data {
+		if kk == key || (end != "" && kk >= key && (kk < end || end == "\x00")) {
+			doomed = append(doomed, kk)
+		}
+	}
+	for _, kk := range doomed {
+		delete(k.data, kk)
+	}
+	return &clientv3.DeleteResponse{Deleted: int64(len(doomed))}, nil
 }
 
 func vPlugin(sb, ms int) (*Plugin, *vKV) {
